@@ -53,8 +53,16 @@ def is_usz(t, want_slice):
         not any(re.search(r"_be_|_ne_", n) for n in names)
 
 
+def length_guard(a, v):
+    """a comparison that only relates the input's length to constants / decoded lengths: a bounds guard (it can only
+    reject inputs that are too short for what is read next; adding or removing one does not change the layout)"""
+    if a[0] != "b" or not isinstance(a[1], tuple) or a[1][0] != "bin" or a[1][1] not in ("Lt", "Le", "Gt", "Ge"):
+        return False
+    return any(s[0] == "len" and isinstance(s[1], tuple) and s[1][0] in ("param", "slice", "upd") for s in subterms(a[1]))
+
+
 def only_ok_conds(p, extra=lambda a, v: False):
-    return [(a, v) for a, v in p.conds() if not (a[0] == "ok" or extra(a, v))]
+    return [(a, v) for a, v in p.conds() if not (a[0] == "ok" or extra(a, v) or length_guard(a, v))]
 
 
 def ok_paths(eng, paths):
